@@ -296,8 +296,89 @@ namespace verif
     HarnessInfo harness_info() { return { "C11", 260 }; }
     void harness_init() { }
 
+    // A second, small scenario on a value type whose move is destructive (std::string): one promise, 2-4
+    // observers of generated kinds, attached before or after it is fulfilled, optionally a whenAll over it.
+    // With plain integers "moved out of the promise" cannot be told from "copied"; here every observer and the
+    // combinator must see the value the promise was fulfilled with, each exactly once.  Decoded from the same
+    // input (read again from the start), so that the main program's decoding is untouched.
+    Verdict string_observers(const uint8_t* data, size_t size, Report& rep)
+    {
+        Choices c(data, size);
+        const std::string original = "the-value-the-promise-was-fulfilled-with-" + std::to_string(c.pick(1000));
+        unsigned n = 2 + c.pick(3);
+        struct Obs
+        {
+            unsigned kind;   // 0: by value, returns a value; 1: by const reference, returns a value; 2: by value, returns nothing; 3: by value, returns a promise
+            bool before;     // attached before the promise is fulfilled
+            int runs = 0;
+            std::string saw;
+        };
+        std::vector<Obs> obs(n);
+        std::string desc = "string promise:";
+        for (auto& o : obs)
+        {
+            o.kind   = c.pick(4);
+            o.before = c.coin(128);
+            desc += std::string(o.before ? " before:" : " after:") + (o.kind == 0 ? "by-value->value" : o.kind == 1 ? "const-ref->value" : o.kind == 2 ? "by-value->void" : "by-value->promise");
+        }
+        bool with_all = c.coin(100);
+        Async::Deferred<std::string> def;
+        Async::Promise<std::string> p([&](Async::Deferred<std::string> d) { def = std::move(d); });
+        auto attach = [&](Obs& o) {
+            Obs* op = &o;
+            auto rej = [](std::exception_ptr) {};
+            switch (o.kind)
+            {
+            case 0:
+                p.then([op](std::string v) { ++op->runs; op->saw = v; return int(v.size()); }, rej);
+                break;
+            case 1:
+                p.then([op](const std::string& v) { ++op->runs; op->saw = v; return int(v.size()); }, rej);
+                break;
+            case 2:
+                p.then([op](std::string v) { ++op->runs; op->saw = v; }, rej);
+                break;
+            default:
+                p.then([op](std::string v) { ++op->runs; op->saw = v; return Async::Promise<int>::resolved(int(v.size())); }, rej);
+            }
+        };
+        for (auto& o : obs)
+            if (o.before)
+                attach(o);
+        std::string all_saw;
+        int all_runs = 0;
+        if (with_all)
+        {
+            desc += " +whenAll(p, resolved 7)";
+            auto seven = Async::Promise<int>::resolved(7);
+            Async::whenAll(p, seven).then([&](const std::tuple<std::string, int>& t) { ++all_runs; all_saw = std::get<0>(t); }, [](std::exception_ptr) {});
+        }
+        def.resolve(std::string(original));
+        for (auto& o : obs)
+            if (!o.before)
+                attach(o);
+        rep.label("string-observers");
+        for (size_t i = 0; i < obs.size(); ++i)
+        {
+            V_CHECK(obs[i].runs == 1, "C11/string/observer-run-count", desc + ": observer " + std::to_string(i) + " ran " + std::to_string(obs[i].runs) + " times");
+            V_CHECK(obs[i].saw == original, "C11/string/observer-saw-other-value",
+                    desc + ": observer " + std::to_string(i) + " received \"" + printable(obs[i].saw, 60) + "\" instead of the value the promise was fulfilled with (" + std::to_string(original.size()) + " bytes)");
+        }
+        if (with_all)
+        {
+            V_CHECK(all_runs == 1, "C11/string/whenall-run-count", desc + ": the all-of continuation ran " + std::to_string(all_runs) + " times");
+            V_CHECK(all_saw == original, "C11/string/whenall-saw-other-value", desc + ": whenAll delivered \"" + printable(all_saw, 60) + "\" for this input");
+        }
+        return Verdict::pass();
+    }
+
     Verdict run_case(const uint8_t* data, size_t size, Report& rep)
     {
+        {
+            Verdict sv = string_observers(data, size, rep);
+            if (sv.kind != Verdict::Pass)
+                return sv;
+        }
         Choices c(data, size);
         World W;
         Real R;
